@@ -4,6 +4,7 @@ import (
 	"fmt"
 	"go/token"
 	"go/types"
+	"sort"
 	"strings"
 
 	"dawnverif/checker/core"
@@ -28,44 +29,85 @@ func runC01(p *core.Prog, r *core.Result) {
 	if m == nil {
 		return
 	}
-	fn := m.Fn
-
 	// ---- R1.1 skip conjunction
 	ups := m.Events["TargetUpToDate"]
 	r.Floor("R1.1", len(ups), 1, "up-to-date (skip) sites")
-	// the accumulator: a boolean phi in a loop over the dependency results that receives a constant false
-	var acc *ssa.Phi
-	core.Instrs(fn, func(in ssa.Instruction) {
-		ph, ok := in.(*ssa.Phi)
-		if !ok {
-			return
-		}
-		if b, ok := ph.Type().Underlying().(*types.Basic); !ok || b.Kind() != types.Bool {
-			return
-		}
-		hasTrue, hasFalse := false, false
-		for _, e := range ph.Edges {
-			if c, ok := core.ConstBool(e); ok {
-				if c {
-					hasTrue = true
-				} else {
-					hasFalse = true
-				}
+	// staleness carriers: phis of the dependency loop that are "marked" (set to false / appended to) exactly when a
+	// dependency is found out of date. The loop may live in Evaluate or in a helper it calls.
+	carriers := findStalenessCarriers(m.DepsFn)
+	isCarrier := func(v ssa.Value) (bool, string) {
+		for _, c := range carriers {
+			if v == ssa.Value(c.phi) {
+				return true, c.kind
 			}
 		}
-		if hasTrue && hasFalse && core.Reaches(ph.Block(), ph.Block(), false) {
-			acc = ph
+		return false, ""
+	}
+	// depsFresh: the fact says that no dependency was found out of date
+	depsFresh := func(cond ssa.Value, val bool) bool {
+		resolve := func(x ssa.Value) (bool, string) {
+			x = core.Unwrap(x)
+			if ok, k := isCarrier(x); ok {
+				return true, k
+			}
+			// a result of the dependency helper that is a carrier there
+			if e, ok := x.(*ssa.Extract); ok && m.DepsSite != nil && e.Tuple == ssa.Value(m.DepsSite) {
+				for _, ret := range core.ReturnsOf(m.DepsFn) {
+					vals := core.RetVals(ret)
+					if e.Index < len(vals) {
+						if ok, k := isCarrier(vals[e.Index]); ok {
+							return true, k
+						}
+					}
+				}
+			}
+			return false, ""
 		}
-	})
+		if ok, k := resolve(cond); ok && k == "bool" {
+			return val
+		}
+		b, ok := cond.(*ssa.BinOp)
+		if !ok {
+			return false
+		}
+		ln, ok := b.X.(*ssa.Call)
+		if !ok {
+			return false
+		}
+		bi, ok := ln.Call.Value.(*ssa.Builtin)
+		if !ok || bi.Name() != "len" {
+			return false
+		}
+		if ok, k := resolve(ln.Call.Args[0]); !ok || k != "slice" {
+			return false
+		}
+		kk, okk := core.ConstInt(b.Y)
+		if !okk || kk != 0 {
+			return false
+		}
+		switch b.Op {
+		case token.EQL, token.LEQ:
+			return val
+		case token.NEQ, token.GTR:
+			return !val
+		}
+		return false
+	}
 	upToDate0 := extractOf(m.UpToDate, 0)
 	for i, c := range ups {
 		atoms := map[string]bool{
 			"not forced (Project.always is false)": holds(p, c, false, func(v ssa.Value) bool { return projField(v, "always") }),
 			"own check reports up to date":         holds(p, c, true, func(v ssa.Value) bool { return upToDate0 != nil && v == upToDate0 }),
 			"no re-run pending (info.Rerun false)": holds(p, c, false, func(v ssa.Value) bool { return m.infoField(v, "Rerun") }),
-			"every dependency up to date":          acc != nil && holds(p, c, true, func(v ssa.Value) bool { return v == ssa.Value(acc) }),
+			"every dependency up to date":          p.FactsAt(c).Find(depsFresh),
 		}
-		for name, ok := range atoms {
+		var names []string
+		for name := range atoms {
+			names = append(names, name)
+		}
+		sort.Strings(names)
+		for _, name := range names {
+			ok := atoms[name]
 			r.Check(ok, "R1.1", fmt.Sprintf("dawn.(*runTarget).Evaluate#skip-%d:%s", i+1, name), p.InstrPos(c), "the skip is guarded by: "+name, "a target can be skipped without: "+name+" — it is reported up to date although it must run")
 		}
 		// and the upToDate error was checked
@@ -75,67 +117,73 @@ func runC01(p *core.Prog, r *core.Result) {
 		}
 	}
 
-	// ---- R1.2 dependency atoms: on every edge that keeps the accumulator true, the three atoms hold
-	if acc == nil {
-		r.Unk("R1.2", "dawn.(*runTarget).Evaluate#deps-accumulator", p.Pos(fn.Pos()), "no boolean accumulator over the dependency results recognised")
+	// ---- R1.2 dependency atoms: on every edge that leaves a carrier unmarked, the three atoms hold
+	if len(carriers) == 0 {
+		r.Unk("R1.2", "dawn.(*runTarget).Evaluate#deps-accumulator", p.Pos(m.DepsFn.Pos()), "no staleness carrier (boolean accumulator or list of out-of-date dependencies) recognised in the dependency loop")
 	} else {
-		efs := p.PhiEdgeFacts(acc)
 		keep := 0
-		for i, e := range acc.Edges {
-			if c, ok := core.ConstBool(e); ok && !c {
-				continue // this edge marks the dependency out of date
-			}
-			if !core.Reaches(acc.Block(), acc.Block().Preds[i], true) {
-				continue // loop entry (initial true)
-			}
-			keep++
-			fs := efs[i]
-			hasRecord := fs.Find(func(c ssa.Value, v bool) bool {
-				ex, ok := c.(*ssa.Extract)
-				if !ok || ex.Index != 1 || !v {
-					return false
+		for _, car := range carriers {
+			acc := car.phi
+			efs := p.PhiEdgeFacts(acc)
+			for i, e := range acc.Edges {
+				if car.marked(e) {
+					continue // this edge marks the dependency out of date
 				}
-				lk, ok := ex.Tuple.(*ssa.Lookup)
-				return ok && m.infoField(lk.X, "Dependencies")
-			})
-			notChanged := fs.Find(func(c ssa.Value, v bool) bool {
-				return !v && core.LoadOfField(c, pkgRoot, "runTarget", "changed")
-			})
-			sameStamp := fs.Find(func(c ssa.Value, v bool) bool {
-				b, ok := c.(*ssa.BinOp)
-				if !ok || (b.Op != token.NEQ && b.Op != token.EQL) || (b.Op == token.NEQ) == v {
-					return false
+				if !core.Reaches(acc.Block(), acc.Block().Preds[i], true) {
+					continue // loop entry (initial value)
 				}
-				isCur := func(x ssa.Value) bool { return core.LoadOfField(x, pkgRoot, "runTarget", "data") }
-				isPrev := func(x ssa.Value) bool {
-					ex, ok := x.(*ssa.Extract)
-					if !ok || ex.Index != 0 {
+				keep++
+				fs := efs[i]
+				hasRecord := fs.Find(func(c ssa.Value, v bool) bool {
+					ex, ok := c.(*ssa.Extract)
+					if !ok || ex.Index != 1 || !v {
 						return false
 					}
 					lk, ok := ex.Tuple.(*ssa.Lookup)
-					return ok && m.infoField(lk.X, "Dependencies")
+					return ok && m.recordedDeps(lk.X)
+				})
+				notChanged := fs.Find(func(c ssa.Value, v bool) bool {
+					return !v && core.LoadOfField(c, pkgRoot, "runTarget", "changed")
+				})
+				sameStamp := fs.Find(func(c ssa.Value, v bool) bool {
+					b, ok := c.(*ssa.BinOp)
+					if !ok || (b.Op != token.NEQ && b.Op != token.EQL) || (b.Op == token.NEQ) == v {
+						return false
+					}
+					isCur := func(x ssa.Value) bool { return core.LoadOfField(x, pkgRoot, "runTarget", "data") }
+					isPrev := func(x ssa.Value) bool {
+						ex, ok := x.(*ssa.Extract)
+						if !ok || ex.Index != 0 {
+							return false
+						}
+						lk, ok := ex.Tuple.(*ssa.Lookup)
+						return ok && m.recordedDeps(lk.X)
+					}
+					return isCur(b.X) && isPrev(b.Y) || isCur(b.Y) && isPrev(b.X)
+				})
+				for _, a := range []struct {
+					name string
+					ok   bool
+				}{{"it has a recorded stamp", hasRecord}, {"it did not change in this build", notChanged}, {"its stamp equals the recorded one", sameStamp}} {
+					r.Check(a.ok, "R1.2", fmt.Sprintf("%s#dep-up-to-date-%d:%s", fname(m.DepsFn), keep, a.name), p.InstrPos(acc), "a dependency is considered up to date only when "+a.name, "a dependency can be considered up to date without: "+a.name+" — dependents of a changed target are skipped")
 				}
-				return isCur(b.X) && isPrev(b.Y) || isCur(b.Y) && isPrev(b.X)
-			})
-			for name, ok := range map[string]bool{"it has a recorded stamp": hasRecord, "it did not change in this build": notChanged, "its stamp equals the recorded one": sameStamp} {
-				r.Check(ok, "R1.2", fmt.Sprintf("dawn.(*runTarget).Evaluate#dep-up-to-date-%d:%s", keep, name), p.InstrPos(acc), "a dependency is considered up to date only when "+name, "a dependency can be considered up to date without: "+name+" — dependents of a changed target are skipped")
 			}
 		}
 		r.Floor("R1.2", keep, 1, "edges on which a dependency is considered up to date")
 		// the same dependency is looked up, compared and recorded: lookup key == MapUpdate key of depData
 		okKey := false
-		core.Instrs(fn, func(in ssa.Instruction) {
+		core.Instrs(m.DepsFn, func(in ssa.Instruction) {
 			lk, ok := in.(*ssa.Lookup)
-			if !ok || !m.infoField(lk.X, "Dependencies") {
+			if !ok || !m.recordedDeps(lk.X) {
 				return
 			}
-			core.Instrs(fn, func(in2 ssa.Instruction) {
+			core.Instrs(m.DepsFn, func(in2 ssa.Instruction) {
 				if mu, ok := in2.(*ssa.MapUpdate); ok && mu.Map == m.DepData && mu.Key == lk.Index {
 					okKey = true
 				}
 			})
 		})
-		r.Check(okKey, "R1.2", "dawn.(*runTarget).Evaluate#dep-key", p.Pos(fn.Pos()), "the recorded stamp is looked up under the same label under which the current stamp is recorded", "recorded and current stamps are keyed differently")
+		r.Check(okKey, "R1.2", fname(m.DepsFn)+"#dep-key", p.Pos(m.DepsFn.Pos()), "the recorded stamp is looked up under the same label under which the current stamp is recorded", "recorded and current stamps are keyed differently")
 	}
 
 	// ---- R1.3 stamp dependence (F8)
@@ -160,7 +208,7 @@ func checkStampDependsOnDeps(p *core.Prog, r *core.Result, m *evalModel) {
 	evalErr := extractOf(m.Evaluate, 2)
 	depends := func(v ssa.Value) bool {
 		return core.DependsOn(v, core.SliceOpts{Stores: true, ThroughCall: func(c *ssa.Call) bool { return core.Callee(c) != nil }}, func(x ssa.Value) bool {
-			if m.DepData != nil && x == m.DepData {
+			if m.DepDataEv != nil && x == m.DepDataEv || m.DepData != nil && x == m.DepData {
 				return true
 			}
 			// a dependency's stamp read from the results of EvaluateTargets
@@ -315,67 +363,11 @@ func checkFunctionUpToDate(p *core.Prog, r *core.Result) {
 		}
 		// (b) env unchanged and outputs exist
 		envSame := dcall != nil && holds(p, ret, true, func(v ssa.Value) bool { return v == extractOf(dcall, 0) })
-		// loop over gens exhausted
-		loopDone := holds(p, ret, false, func(v ssa.Value) bool {
-			b, ok := v.(*ssa.BinOp)
-			if !ok || b.Op != token.LSS {
-				return false
-			}
-			ln, ok := b.Y.(*ssa.Call)
-			if !ok {
-				return false
-			}
-			bi, ok := ln.Call.Value.(*ssa.Builtin)
-			return ok && bi.Name() == "len" && core.LoadOfField(ln.Call.Args[0], pkgRoot, "function", "gens")
-		})
-		// inside the loop: os.Stat on the element; error edge never continues the loop except ... (must return false)
-		statOK := false
-		for _, c := range core.Calls(f) {
-			if !core.IsCallTo(c, "os", "Stat") && !core.IsCallTo(c, "os", "Lstat") {
-				continue
-			}
-			call := c.(*ssa.Call)
-			fromGens := core.DependsOn(call.Call.Args[0], core.SliceOpts{}, func(v ssa.Value) bool { return core.LoadOfField(v, pkgRoot, "function", "gens") })
-			errV := extractOf(call, 1)
-			// every return reachable with err != nil known must be a false verdict; and the loop's back edge is only on the nil edge
-			bad := false
-			for _, r2 := range core.ReturnsOf(f) {
-				nn, known := p.FactsAt(r2).ErrNonNil(errV)
-				if known && nn {
-					v2 := core.RetVals(r2)
-					if bb, ok := core.ConstBool(v2[0]); !ok || bb {
-						bad = true
-					}
-				}
-			}
-			// back edge facts: the loop header is re-entered only with err == nil
-			hdr := call.Block()
-			for _, pr := range hdr.Preds {
-				_ = pr
-			}
-			if fromGens && errV != nil && !bad && core.Reaches(call.Block(), call.Block(), false) {
-				// the loop continues from the stat block only through the nil edge
-				cont := true
-				for _, b := range f.Blocks {
-					if iff, ok := b.Instrs[len(b.Instrs)-1].(*ssa.If); ok {
-						if bo, ok := iff.Cond.(*ssa.BinOp); ok && (bo.X == errV || bo.Y == errV) {
-							// successor on the non-nil side must not reach the loop header without returning
-							nonNilSucc := b.Succs[0]
-							if bo.Op == token.EQL {
-								nonNilSucc = b.Succs[1]
-							}
-							if core.Reaches(nonNilSucc, call.Block(), true) {
-								cont = false
-							}
-						}
-					}
-				}
-				statOK = cont
-			}
-		}
+		outputsOK := outputsVerifiedAt(p, f, ret, 0)
+		loopDone, statOK := outputsOK, outputsOK
 		r.Check(envSame && loopDone && statOK, "R1.5", construct, p.InstrPos(ret), "reports up to date only when the environment is unchanged and every declared output was stat'ed successfully", "a function target can be reported up to date without its environment being unchanged and all declared outputs existing: a deleted output is not regenerated")
 	}
-	r.Floor("R1.5", n, 2, "true verdicts of (*function).upToDate")
+	r.Floor("R1.5", n, 1, "true verdicts of (*function).upToDate")
 }
 
 // checkGeneratorLinking: R1.6.
@@ -471,4 +463,166 @@ func checkGeneratorLinking(p *core.Prog, r *core.Result) {
 		}
 	}
 	r.Check(okDeps, "R1.6", "dawn.(*sourceFile).dependencies#generator", p.Pos(deps.Pos()), "a generated file depends on its generator", "a generated file does not report its generator as a dependency")
+}
+
+// stalenessCarrier: a phi of the dependency loop that is marked when a dependency is out of date.
+type stalenessCarrier struct {
+	phi  *ssa.Phi
+	kind string // "bool" (set to false) or "slice" (appended to)
+}
+
+// marked: is this incoming value the "dependency is out of date" mark?
+func (c stalenessCarrier) marked(e ssa.Value) bool {
+	if c.kind == "bool" {
+		b, ok := core.ConstBool(e)
+		return ok && !b
+	}
+	call, ok := e.(*ssa.Call)
+	if !ok {
+		return false
+	}
+	bi, ok := call.Call.Value.(*ssa.Builtin)
+	return ok && bi.Name() == "append"
+}
+
+func findStalenessCarriers(fn *ssa.Function) []stalenessCarrier {
+	var out []stalenessCarrier
+	core.Instrs(fn, func(in ssa.Instruction) {
+		ph, ok := in.(*ssa.Phi)
+		if !ok || !core.Reaches(ph.Block(), ph.Block(), false) {
+			return
+		}
+		switch t := ph.Type().Underlying().(type) {
+		case *types.Basic:
+			if t.Kind() != types.Bool {
+				return
+			}
+			hasTrue, hasFalse := false, false
+			for _, e := range ph.Edges {
+				if c, ok := core.ConstBool(e); ok {
+					if c {
+						hasTrue = true
+					} else {
+						hasFalse = true
+					}
+				}
+			}
+			if hasTrue && hasFalse {
+				out = append(out, stalenessCarrier{ph, "bool"})
+			}
+		case *types.Slice:
+			for _, e := range ph.Edges {
+				if call, ok := e.(*ssa.Call); ok {
+					if bi, ok := call.Call.Value.(*ssa.Builtin); ok && bi.Name() == "append" && call.Call.Args[0] == ssa.Value(ph) {
+						out = append(out, stalenessCarrier{ph, "slice"})
+					}
+				}
+			}
+		}
+	})
+	return out
+}
+
+// outputsVerifiedAt: at instruction `at` of fn it is established that every declared output (function.gens) was
+// stat'ed successfully — directly (the loop over gens is exhausted and every failing Stat leads to a false verdict /
+// error), or through a helper method whose "all outputs exist" return is the only one consistent with the facts at `at`.
+func outputsVerifiedAt(p *core.Prog, fn *ssa.Function, at ssa.Instruction, depth int) bool {
+	loopDone := holds(p, at, false, func(v ssa.Value) bool {
+		b, ok := v.(*ssa.BinOp)
+		if !ok || b.Op != token.LSS {
+			return false
+		}
+		ln, ok := b.Y.(*ssa.Call)
+		if !ok {
+			return false
+		}
+		bi, ok := ln.Call.Value.(*ssa.Builtin)
+		return ok && bi.Name() == "len" && core.LoadOfField(ln.Call.Args[0], pkgRoot, "function", "gens")
+	})
+	if loopDone {
+		for _, c := range core.Calls(fn) {
+			if !core.IsCallTo(c, "os", "Stat") && !core.IsCallTo(c, "os", "Lstat") {
+				continue
+			}
+			call := c.(*ssa.Call)
+			fromGens := core.DependsOn(call.Call.Args[0], core.SliceOpts{}, func(v ssa.Value) bool { return core.LoadOfField(v, pkgRoot, "function", "gens") })
+			errV := extractOf(call, 1)
+			if !fromGens || errV == nil || !core.Reaches(call.Block(), call.Block(), false) {
+				continue
+			}
+			// the loop continues from the stat only through the nil edge
+			cont := true
+			for _, b := range fn.Blocks {
+				if iff, ok := b.Instrs[len(b.Instrs)-1].(*ssa.If); ok {
+					if bo, ok := iff.Cond.(*ssa.BinOp); ok && (bo.X == errV || bo.Y == errV) {
+						nonNilSucc := b.Succs[0]
+						if bo.Op == token.EQL {
+							nonNilSucc = b.Succs[1]
+						}
+						if core.Reaches(nonNilSucc, call.Block(), true) {
+							cont = false
+						}
+					}
+				}
+			}
+			if cont {
+				return true
+			}
+		}
+	}
+	if depth >= 2 {
+		return false
+	}
+	// through a helper
+	for _, c := range core.Calls(fn) {
+		call, ok := c.(*ssa.Call)
+		if !ok || !core.Dominates(call, at) {
+			continue
+		}
+		h := core.Callee(call)
+		if h == nil || !core.InModule(h) || h.Blocks == nil || h == fn {
+			continue
+		}
+		var good, bad []*ssa.Return
+		for _, hr := range core.ReturnsOf(h) {
+			if outputsVerifiedAt(p, h, hr, depth+1) {
+				good = append(good, hr)
+			} else {
+				bad = append(bad, hr)
+			}
+		}
+		if len(good) == 0 {
+			continue
+		}
+		// every bad return must be excluded by the caller's facts
+		allExcluded := true
+		for _, br := range bad {
+			excluded := false
+			for i, v := range core.RetVals(br) {
+				res := extractOf(call, i)
+				if h.Signature.Results().Len() == 1 {
+					res = call
+				}
+				if res == nil {
+					continue
+				}
+				if bv, isConst := core.ConstBool(v); isConst {
+					if holds(p, at, !bv, func(x ssa.Value) bool { return x == res }) {
+						excluded = true
+					}
+				} else if types.Implements(v.Type(), errorIface()) && !core.IsNilConst(v) {
+					if nn, known := p.FactsAt(at).ErrNonNil(res); known && !nn {
+						excluded = true
+					}
+				}
+			}
+			if !excluded {
+				allExcluded = false
+			}
+		}
+		if allExcluded {
+			return true
+		}
+	}
+	return false
 }
